@@ -489,9 +489,15 @@ def explore(theory, run, stats=None, timeout_ms=10000, seed=0, open_findings=(),
     queue = [list(start or [])]
     all_obs = []
     finished = []
+    import os as _os
+    import time as _time
+    deadline = _time.time() + float(_os.environ.get("PYVC_JOB_BUDGET_S", "900"))
     while queue:
         if split_at is not None and stats.paths >= split_at:
             break
+        if _time.time() > deadline:
+            # a check must end: exploration that does not finish within the budget is undecided, never a verdict
+            raise Undecided("exploration time budget of one job exceeded (PYVC_JOB_BUDGET_S)")
         trace = queue.pop()
         ctx = Ctx(theory, trace, stats, timeout_ms=timeout_ms, seed=seed, open_findings=open_findings)
         try:
